@@ -64,7 +64,11 @@ func (c *vCapture) ReconcilePhase(_ context.Context, owner controllers.PhaseObje
 		o.SetNamespace("ns")
 		if c.controlled {
 			t := true
-			o.SetOwnerReferences([]metav1.OwnerReference{{APIVersion: "package-operator.run/v1alpha1", Kind: "ObjectSetPhase", Name: "me-p", UID: "uid-phase", Controller: &t}})
+			kind := "ObjectSetPhase"
+			if owner.ClientObject().GetNamespace() == "" {
+				kind = "ClusterObjectSetPhase"
+			}
+			o.SetOwnerReferences([]metav1.OwnerReference{{APIVersion: "package-operator.run/v1alpha1", Kind: kind, Name: "me-p", UID: "uid-phase", Controller: &t}})
 		}
 		objs = append(objs, o)
 	}
@@ -143,7 +147,21 @@ func VerifC15PhaseController() {
 		now := metav1.Now()
 		p.DeletionTimestamp = &now
 	}
-	c.Put(p)
+	// the cluster-scoped twin (ClusterObjectSetPhase and its adapter) carries the same content
+	cluster := verifrt.Bound("clusterScoped", 0) == 1
+	reqNS := "ns"
+	factory := newGenericObjectSetPhase
+	if cluster {
+		m := verifk8s.ToMap(p)
+		delete(m["metadata"].(map[string]interface{}), "namespace")
+		cp := &corev1alpha1.ClusterObjectSetPhase{}
+		verifk8s.FromMap(m, cp)
+		c.Put(cp)
+		reqNS = ""
+		factory = newGenericClusterObjectSetPhase
+	} else {
+		c.Put(p)
+	}
 
 	cap := &vCapture{outcome: verifrt.IntRange("phase.outcome", 0, 2), controlled: verifrt.Bool("objects.controlled"),
 		tdDone: verifrt.Bool("teardown.done"), tdErr: verifrt.Bool("teardown.err")}
@@ -159,10 +177,10 @@ func VerifC15PhaseController() {
 	strategy := ownerhandling.NewNative(vScheme())
 	pr := newObjectSetPhaseReconciler(vScheme(), cap, lookup, strategy)
 	ctl := &GenericObjectSetPhaseController{
-		newObjectSetPhase: newGenericObjectSetPhase, class: "default", log: logr.Discard(), scheme: vScheme(),
+		newObjectSetPhase: factory, class: "default", log: logr.Discard(), scheme: vScheme(),
 		client: c, dynamicCache: cache, ownerStrategy: strategy, teardownHandler: pr, reconciler: []reconciler{pr},
 	}
-	_, err := ctl.Reconcile(context.Background(), ctrl.Request{NamespacedName: types.NamespacedName{Namespace: "ns", Name: "me-p"}})
+	_, err := ctl.Reconcile(context.Background(), ctrl.Request{NamespacedName: types.NamespacedName{Namespace: reqNS, Name: "me-p"}})
 
 	var writes, statusUpdates, patches []verifk8s.Call
 	for _, call := range c.Calls {
